@@ -6,7 +6,7 @@
 (* names a ndjson file of event indices consumed without judgement (used   *)
 (* by the driver to keep judging after a rejected / known-finding event).  *)
 (***************************************************************************)
-EXTENDS JField, JScalar, JStream, JHash, Json, IOUtils, TLC
+EXTENDS JField, JScalar, JStream, JPairing, Json, IOUtils, TLC
 
 Rec  == ndJsonDeserialize(IOEnv.TRACE)
 SkipSeq == ndJsonDeserialize(IOEnv.SKIP)
@@ -40,6 +40,12 @@ Stateless(e) ==
     [] e.op = "clearh" -> JudgeClearh(e)
     [] e.op = "map" -> JudgeMap(e)
     [] e.op = "map2" -> JudgeMap2(e)
+    [] e.op = "pairing" -> JudgePairing(e)
+    [] e.op = "bilin" -> JudgeBilin(e)
+    [] e.op = "finalexp" -> JudgeFinalExp(e)
+    [] e.op = "ferel" -> JudgeFeRel(e)
+    [] e.op = "pairl" -> JudgePairl(e)
+    [] e.op = "pairr" -> JudgePairr(e)
     [] e.op = "prod" -> \A i \in 1..Len(e.out) : InSubJ(e.g, e.out[i])
 
 IsStateful(e) == e.op \in {"cm"}
